@@ -391,7 +391,7 @@ def build_experiment(flowir_text, root, extra_files=None, is_flowir=True, variab
     return exp
 
 
-def new_controller(exp, initial_stage=0):
+def new_controller(exp, initial_stage=0, restart_sources=None):
     """what elaunch.generate_components / tests.utils.new_controller do"""
     wg = exp.experimentGraph
     comps = []
@@ -401,7 +401,9 @@ def new_controller(exp, initial_stage=0):
         spec = data['componentSpecification']
         job = stage.jobWithName(spec.identification.componentName)
         comps.append(experiment.runtime.workflow.ComponentState(job, wg, create_engine=bool(stage.index >= initial_stage)))
-    controller = experiment.runtime.control.Controller(exp)
+    # restart_sources = {stage: True}: what `elaunch --restart <stage>` passes by default (restart hooks are used for the
+    # components of the stage the run is restarted from)
+    controller = experiment.runtime.control.Controller(exp, do_restart_sources=restart_sources)
     return controller, comps
 
 
